@@ -3,13 +3,13 @@ from vlib import g1check
 
 PROPERTY = "C08"
 LEVEL = "exploration"
-RULE = ("G1 with-programs with 22 `as`-target forms (none, local / global name, attribute, nested attribute, subscript by "
-        "constant / by name, chained subscripts, subscript of an attribute, positional calls (with arguments) then subscript, "
+RULE = ("G1 with-programs with 25 `as`-target forms (none, local / global name, attribute, nested attribute, subscript by "
+        "constant / by name, chained subscripts, subscript of an attribute, positional calls (with arguments; of a global callable, of a method, of a callable held in a local variable) then subscript, subscript by the constant ..., "
         "tuple, list, tuple of attribute and subscript, starred first / last / middle, nested unpacking; unsupported: walrus "
-        "or arithmetic in a subscript, keyword call, slice) x 3 layouts (one line, manager call spread over lines, "
+        "or arithmetic in a subscript, keyword call, slice with both bounds or with an omitted one) x 3 layouts (one line, manager call spread over lines, "
         "parenthesised) x 1-4 items, observed suspended and running on CPython 3.9-3.12; every reported context is matched to "
         "its item through obj. Oracle: the renderer's record of the with-keyword line and the target text; varname must be "
-        "None (only for no/unsupported target), or parse (ast) to the same expression modulo Store/Load and List==Tuple, or "
+        "None (only for no/unsupported target), or parse (ast) to the same expression modulo Store/Load, List==Tuple and omitted slice bound == None (the compiler emits one code for both), or "
         "(unsupported/no target only) name a local bound to the manager. Both tiers add a static differential (a rotating 1/6 of the files in quick, all in thorough) over every with "
         "statement in the standard library of each interpreter (ast vs analyze_with_blocks). A program is non-trivial when >= 1 "
         "checked context belongs to an item with a non-name target or to a with statement spanning several lines; "
